@@ -276,6 +276,22 @@ def evaluate_payload_template(input, context, template):
         https://states-language.net/#appendix-b
         """
 
+        def is_integer(value):
+            # bool is a subclass of int in Python, but true/false are not JSON numbers
+            return isinstance(value, int) and not isinstance(value, bool)
+
+        def json_equal(a, b):
+            # Equality of JSON values: true is not 1 and false is not 0.
+            if isinstance(a, bool) or isinstance(b, bool):
+                return isinstance(a, bool) and isinstance(b, bool) and a == b
+            if isinstance(a, list) and isinstance(b, list):
+                return len(a) == len(b) and all(json_equal(x, y) for x, y in zip(a, b))
+            if isinstance(a, dict) and isinstance(b, dict):
+                return a.keys() == b.keys() and all(json_equal(a[k], b[k]) for k in a)
+            return type(a) == type(b) and a == b or (
+                isinstance(a, (int, float)) and isinstance(b, (int, float)) and a == b
+            )
+
         def asl_intrinsic_Format(args):
             if len(args) < 1:
                 raise IntrinsicFailure(
@@ -330,7 +346,7 @@ def evaluate_payload_template(input, context, template):
                 )
 
             n = args[1]
-            if not isinstance(n, int) or n <= 0:
+            if not is_integer(n) or n <= 0:
                 raise IntrinsicFailure(
                     "States.ArrayPartition failed, arg[1] is not a non-zero, positive integer."
                 )
@@ -356,7 +372,7 @@ def evaluate_payload_template(input, context, template):
             if AWS supports JSON object/list, if so that's make this much
             more complex and computationally expensive
             """
-            return args[1] in input_array
+            return any(json_equal(item, args[1]) for item in input_array)
 
         def asl_intrinsic_ArrayRange(args):
             if len(args) != 3:
@@ -366,9 +382,9 @@ def evaluate_payload_template(input, context, template):
             start     = args[0]
             end       = args[1]
             increment = args[2]
-            if not (isinstance(start, int) and
-                    isinstance(end, int) and
-                    isinstance(increment, int)):
+            if not (is_integer(start) and
+                    is_integer(end) and
+                    is_integer(increment)):
                 raise IntrinsicFailure(
                     "States.ArrayRange failed, all arguments must be integers."
                 )
@@ -400,7 +416,7 @@ def evaluate_payload_template(input, context, template):
                 )
 
             index = args[1]
-            if not isinstance(index, int) or index < 0:
+            if not is_integer(index) or index < 0:
                 raise IntrinsicFailure(
                     "States.ArrayGetItem failed, arg[1] is not a positive integer."
                 )
@@ -538,7 +554,7 @@ def evaluate_payload_template(input, context, template):
             if len(args) == 3:
                 # https://docs.python.org/3/library/random.html#random.seed
                 random.seed(args[2])
-            if not isinstance(args[0], int) or not isinstance(args[1], int):
+            if not is_integer(args[0]) or not is_integer(args[1]):
                 raise IntrinsicFailure(
                     "States.MathRandom failed, args[0] and args[1] must be integers."
                 )
@@ -552,7 +568,7 @@ def evaluate_payload_template(input, context, template):
                 raise IntrinsicFailure(
                     "States.MathAdd failed, requires two arguments."
                 )
-            if not isinstance(args[0], int) or not isinstance(args[1], int):
+            if not is_integer(args[0]) or not is_integer(args[1]):
                 raise IntrinsicFailure(
                     "States.MathAdd failed, both arguments must be integers."
                 )
